@@ -1252,7 +1252,32 @@ def check_selection(ctx, rule, path, n):
             e.update({"p%d" % i: rnd.randrange(n) for i in range(5)})
             envs.append(e)
     # (the index tuples are enumerated, the slot words are not: a counterexample with in-range indexes counts,
-    # whatever the words are)
+    # whatever the words are; a site that reads the slot words at all must hold for arbitrary words, since no
+    # enumeration covers them — it is tried on equal-word hands too, then refused)
+    from .base import decide_site as _ds, describe_env as _de
+    word_sites = [o for o in s_.obligations if not (o.cond[0] == "c" and o.cond[1]) and any(a_.startswith("s") and a_[1:].isdigit() for root in [o.cond] + list(o.pc) for a_ in atoms_of(root))]
+    for o in word_sites:
+        inst_ = "%s::five_from_permutation: %s %s L%s" % (short(path), short(o.fn), o.kind, o.line)
+        dec_, how_ = _ds(ctx, o)
+        if dec_ is True:
+            continue
+        bad_ = None
+        if dec_ is False and how_ and all((not callable(v_)) and 0 <= v_ < n for k_, v_ in how_.items() if k_.startswith("p") and k_[1:].isdigit()):
+            bad_ = how_
+        if bad_ is None:
+            for wv in (0x10008C29, 7, 0):
+                for tup in ((0, 1, 2, 3, 4), (0, 0, 1, 2, 3), (n - 1, n - 2, 2, 1, 0), (1, 2, 3, 4, 0)):
+                    e_ = {"s%d" % i: wv for i in range(n)}
+                    e_.update({"p%d" % i: tup[i] for i in range(5)})
+                    try:
+                        if all(cval(ctx.fold(c, e_)) for c in o.pc) and not cval(ctx.fold(o.cond, e_)):
+                            bad_ = e_
+                    except (IndexError, KeyError, ZeroDivisionError):
+                        bad_ = e_
+        if bad_ is not None:
+            rep.ob(rule + ".no-panic", inst_, False, "panic site (%s, line %s) is reached and fails for %s" % (o.kind, o.line, _de(bad_)), pdb.where(o.fn))
+        else:
+            rep.uncertified(rule + ".no-panic", "panic site %s depends on the words in the slots and is not proved safe for arbitrary words" % inst_, pdb.where(o.fn))
     panic_free(ctx, rule + ".no-panic", s_, envs, True, "%s::five_from_permutation" % short(path),
                in_domain=lambda e_: all((not callable(v_)) and 0 <= v_ < n for k_, v_ in e_.items() if k_.startswith("p") and k_[1:].isdigit()))
     rep.sample({"rule": rule, "container": short(path), "index_tuples_covered": n ** 5, "folds": cnt})
